@@ -4,7 +4,10 @@ import (
 	"context"
 	"time"
 
+	"tunnox-core/internal/cloud/models"
 	"tunnox-core/internal/cloud/repos"
+	coreerrors "tunnox-core/internal/core/errors"
+	"tunnox-core/internal/httpservice"
 )
 
 // A Host header with or without a port names the same domain.
@@ -27,6 +30,9 @@ type c19Repo struct {
 }
 
 func (r *c19Repo) LookupByDomain(ctx context.Context, d string) (*repos.HTTPDomainMapping, error) {
+	if r.m == nil {
+		return nil, coreerrors.Newf(coreerrors.CodeMappingNotFound, "domain mapping not found: %s", d)
+	}
 	return r.m, nil
 }
 
@@ -51,4 +57,50 @@ func Harness_C19_route_status() {
 		verif_Assert("C19.route.refused", err != nil && pm == nil)
 		verif_Cover("C19.route.refused")
 	}
+}
+
+// The whole lookup chain (repository first, then the legacy in-memory registry): while the
+// repository holds a record for the name - live, disabled, or expired and not yet swept - that
+// record's client owns the name: the request goes to it or is rejected, and never falls through
+// to a registry entry that another client has for the same host.
+func Harness_C19_lookup_layers() {
+	now := int64(1) << 60
+	verif_ClockSet(now)
+	nowUnix := time.Now().Unix()
+	var hm *repos.HTTPDomainMapping
+	routable := false
+	if verif_Bool() {
+		st := []repos.HTTPDomainMappingStatus{repos.HTTPDomainMappingStatusActive, repos.HTTPDomainMappingStatusInactive, repos.HTTPDomainMappingStatusExpired}[verif_Choose(3)]
+		exp := int64(0)
+		if verif_Bool() {
+			exp = nowUnix + int64(verif_IntRange(-3, 3))
+		}
+		hm = &repos.HTTPDomainMapping{ID: "hdm_1", Subdomain: "app", BaseDomain: "tunnox.net", FullDomain: "app.tunnox.net", ClientID: 1001, TargetHost: "127.0.0.1", TargetPort: 8080, Status: st, ExpiresAt: exp}
+		routable = st == repos.HTTPDomainMappingStatusActive && (exp == 0 || nowUnix <= exp)
+	}
+	registry := httpservice.NewDomainRegistry([]string{"tunnox.net"})
+	other := verif_Bool()
+	if other {
+		err := registry.Register(&models.PortMapping{ID: "pm_other", Protocol: models.ProtocolHTTP, HTTPSubdomain: "app", HTTPBaseDomain: "tunnox.net",
+			TargetClientID: 2002, TargetHost: "10.0.0.9", TargetPort: 9000, Status: models.MappingStatusActive})
+		verif_Assert("C19.layers.setup.registry", err == nil)
+	}
+	m := &DomainProxyModule{deps: &httpservice.ModuleDependencies{DomainRegistry: registry, HTTPDomainMappingRepo: &c19Repo{m: hm}}}
+	host := []string{"app.tunnox.net", "app.tunnox.net:443"}[verif_Choose(2)]
+	pm, err := m.lookupMapping(host)
+	switch {
+	case hm != nil && routable:
+		verif_Assert("C19.layers.routes_to_owner", err == nil && pm != nil && pm.TargetClientID == 1001 && pm.TargetPort == 8080)
+		verif_Cover("C19.layers.owner")
+	case hm != nil:
+		verif_Assert("C19.layers.owned_name_rejected", err != nil && pm == nil)
+		if other {
+			verif_Cover("C19.layers.no_fallthrough")
+		}
+	case other:
+		verif_Assert("C19.layers.registry_owner", err == nil && pm != nil && pm.TargetClientID == 2002 && pm.TargetPort == 9000)
+	default:
+		verif_Assert("C19.layers.unknown_rejected", err != nil && pm == nil)
+	}
+	verif_Cover("C19.layers.done")
 }
